@@ -470,15 +470,25 @@ def _create_sbml_variables(
     *,
     model: Model,
     sbml_model: libsbml.Model,
+    compartments: dict[str, Compartment],
 ) -> None:
     """Create the variables for the sbml model.
 
     Args:
         model: Model instance to export.
         sbml_model : libsbml.Model
+        compartments: The compartments written to the file; the model's variables
+            carry no compartment of their own, so all of them live in the first one.
 
     """
-    for name, variable in model.get_raw_variables().items():
+    variables = model.get_raw_variables()
+    if len(variables) == 0:
+        return
+    if len(compartments) == 0:
+        msg = "SBML species need a compartment, but `compartments` is empty"
+        raise ValueError(msg)
+    compartment_id = next(iter(compartments))
+    for name, variable in variables.items():
         cpd = sbml_model.createSpecies()
         cpd.setId(_convert_id_to_sbml(id_=name, prefix="CPD"))
 
@@ -488,7 +498,7 @@ def _create_sbml_variables(
         # stoichiometry * rate. That is an SBML amount: written as a concentration it
         # would be divided by the size of the compartment.
         cpd.setHasOnlySubstanceUnits(True)
-        cpd.setCompartment("compartment")
+        cpd.setCompartment(compartment_id)
         # cpd.setUnit() # FIXME: implement
         if isinstance((init := variable.initial_value), InitialAssignment):
             ar = sbml_model.createInitialAssignment()
@@ -636,7 +646,9 @@ def _model_to_sbml(
     # Actual model components
     _create_sbml_parameters(model=model, sbml_model=sbml_model)
     _create_sbml_derived_parameters(model=model, sbml_model=sbml_model)
-    _create_sbml_variables(model=model, sbml_model=sbml_model)
+    _create_sbml_variables(
+        model=model, sbml_model=sbml_model, compartments=compartments
+    )
     _create_sbml_derived_variables(model=model, sbml_model=sbml_model)
     _create_sbml_reactions(model=model, sbml_model=sbml_model)
     return doc
